@@ -305,6 +305,8 @@ class Gen:
                 break
         if common > 0:
             return ".".join(x.name for x in path[common:])
+        if len(path) > 1 and not any(root is n for n in self.named):
+            return None                      # enclosing message not completed yet
         if root.file == ctx_file:
             return ".".join(x.name for x in path)
         for (fi, as_name) in self.files[ctx_file].imports:
@@ -574,3 +576,109 @@ def runner_tree(t: T) -> Any:
     if k == "arr":
         return ["arr", t.cap, runner_tree(t.t)]
     return ["msg", [[n, nm, runner_tree(ft)] for n, nm, ft in t.fields]]
+
+
+# ---- (de)serialisation for the corpus and replays --------------------------------------------
+
+def t_to_json(t: T) -> Any:
+    k = t.kind
+    d: Dict[str, Any] = {"k": k}
+    if k in ("uint", "int"):
+        d["n"] = t.n
+    elif k == "enum":
+        d["n"] = t.n
+        d["members"] = [[nm, v] for nm, v in t.members]
+    elif k == "alias":
+        d["t"] = t_to_json(t.t)
+    elif k == "arr":
+        d.update(ext=t.ext, cap=t.cap, t=t_to_json(t.t))
+    elif k == "msg":
+        d.update(ext=t.ext, fields=[[n, nm, t_to_json(ft)] for n, nm, ft in t.fields])
+    if t.name:
+        d["name"] = t.name
+        d["pyname"] = py_type_name(None, t, 0)
+    return d
+
+
+class _FlatT(T):
+    pyname: str = ""
+
+
+def t_from_json(d: Any) -> T:
+    k = d["k"]
+    t = T(k)
+    if k in ("uint", "int"):
+        t.n = d["n"]
+    elif k == "enum":
+        t.n = d["n"]
+        t.members = [(nm, v) for nm, v in d["members"]]
+    elif k == "alias":
+        t.t = t_from_json(d["t"])
+    elif k == "arr":
+        t.ext, t.cap, t.t = d["ext"], d["cap"], t_from_json(d["t"])
+    elif k == "msg":
+        t.ext = d["ext"]
+        t.fields = [(n, nm, t_from_json(ft)) for n, nm, ft in d["fields"]]
+    t.name = d.get("pyname", d.get("name", ""))     # flat: name already joined, no parent
+    return t
+
+
+def schema_to_json(s: Schema) -> Any:
+    return {"texts": s.texts, "main_base": s.files[0].base, "top": t_to_json(s.top)}
+
+
+def schema_from_json(j: Any) -> Schema:
+    f = SFile(0, j["main_base"], j["main_base"])
+    s = Schema([f], t_from_json(j["top"]))
+    s.texts = dict(j["texts"])
+    return s
+
+
+def value_to_json(t: T, v: Any) -> Any:
+    k = t.kind
+    if k == "alias":
+        return value_to_json(t.t, v)
+    if k == "arr":
+        return [value_to_json(t.t, x) for x in v]
+    if k == "msg":
+        return {str(n): value_to_json(ft, v[n] if n in v else v[str(n)]) for n, _, ft in t.fields}
+    return v
+
+
+def value_from_json(t: T, v: Any) -> Any:
+    k = t.kind
+    if k == "alias":
+        return value_from_json(t.t, v)
+    if k == "arr":
+        return [value_from_json(t.t, x) for x in v]
+    if k == "msg":
+        return {n: value_from_json(ft, v[str(n)]) for n, _, ft in t.fields}
+    return v
+
+
+def distribution(schemas: List[Schema]) -> Dict[str, Any]:
+    from collections import Counter
+    kinds: Counter = Counter()
+    widths: Counter = Counter()
+    depth: Counter = Counter()
+    nfiles: Counter = Counter()
+    nb: Counter = Counter()
+
+    def walk(t: T, d: int) -> int:
+        kinds[t.kind + ("'" if t.ext else "")] += 1
+        if t.kind in ("uint", "int", "enum"):
+            widths[t.n] += 1
+        if t.kind in ("alias", "arr"):
+            return walk(t.t, d)
+        if t.kind == "msg":
+            return max([d] + [walk(ft, d + 1) for _, _, ft in t.fields])
+        return d
+
+    for s in schemas:
+        depth[walk(s.top, 0)] += 1
+        nfiles[len(s.texts)] += 1
+        b = s.top.nbits()
+        nb["<=64" if b <= 64 else "<=512" if b <= 512 else "<=4096" if b <= 4096 else ">4096"] += 1
+    return {"kinds": dict(kinds), "widths": {str(k): v for k, v in sorted(widths.items())},
+            "message_depth": {str(k): v for k, v in sorted(depth.items())},
+            "files_per_schema": {str(k): v for k, v in sorted(nfiles.items())}, "nbits": dict(nb)}
